@@ -2888,3 +2888,68 @@ pub fn chan2_family(maxlen: usize, main_is_t1: bool) -> Vec<Program> {
     }
     out
 }
+
+
+/// Put an independent racing prelude in front of a program: main spawns two extra threads that
+/// each `fetch_add` a fresh atomic, joins them, marks the position, and then runs the original
+/// program. Whatever the prelude's order, the rest starts from the same state.
+pub fn with_prelude(p: &Program) -> Program {
+    let mut q = p.clone();
+    let na = q.objs.atomics.len();
+    q.objs.atomics.push(0);
+    let n = q.threads.len();
+    q.threads.push(vec![fadd(na, 1, Sc)]);
+    q.threads.push(vec![fadd(na, 1, Sc)]);
+    let mut main: Vec<Op> = vec![K::Spawn { t: n }.into(), K::Spawn { t: n + 1 }.into(), K::Join { t: n }.into(), K::Join { t: n + 1 }.into(), K::Mark.into()];
+    let shift = main.len();
+    for op in &q.threads[0] {
+        let mut op = op.clone();
+        if let Some(g) = op.g.as_mut() {
+            g.idx += shift;
+        }
+        main.push(op);
+    }
+    q.threads[0] = main;
+    q.name = format!("{}+prelude", p.name);
+    q
+}
+
+/// Programs for the prelude-invariance oracle of C16 (at most two children: the prelude needs
+/// two of loom's thread slots): yields while every other thread is blocked, spin loops, wait
+/// loops, locks, channels.
+pub fn prelude_bases(tier: &str) -> Vec<Program> {
+    let mut v: Vec<Program> = vec![];
+    let o = Objs { atomics: vec![0, 0], mutexes: 1, notifies: 1, condvars: 1, chans: 1, ..Default::default() };
+    let lk = || Op::from(K::Lock { m: 0 });
+    let ul = || Op::from(K::Unlock { m: 0 });
+    // main holds the lock, yields while the child is blocked on it, releases, goes on
+    v.push(with_main("PRE-yield-blocked", o.clone(), vec![lk()], vec![vec![lk(), fadd(0, 1, Sc), ul()]], vec![K::Yield.into(), ul(), fadd(0, 1, Sc)], vec![]));
+    v.push(with_main("PRE-yield-blocked2", o.clone(), vec![lk()], vec![vec![lk(), fadd(0, 1, Sc), ul()], vec![fadd(1, 1, Sc)]], vec![K::Yield.into(), ul(), fadd(0, 1, Sc), fadd(1, 1, Sc)], vec![]));
+    // two yields: at the second one nobody else can run, so the yielding thread is picked again
+    // itself; it must still give way once the child becomes runnable
+    for ny in 2..=3 {
+        let mut mid: Vec<Op> = (0..ny).map(|_| Op::from(K::Yield)).collect();
+        mid.extend(vec![ul(), fadd(1, 1, Sc), fadd(0, 1, Sc)]);
+        v.push(with_main("PRE-yield-again", o.clone(), vec![lk()], vec![vec![lk(), fadd(0, 1, Sc), ul()]], mid, vec![]));
+    }
+    v.push(with_main("PRE-yield-again-n", o.clone(), vec![], vec![vec![K::NWait { n: 0 }.into(), fadd(0, 1, Sc)]], vec![K::Yield.into(), K::Yield.into(), K::NNotify { n: 0 }.into(), fadd(1, 1, Sc), fadd(0, 1, Sc)], vec![]));
+    // the child yields while main is blocked in join
+    v.push(with_main("PRE-yield-join", o.clone(), vec![], vec![vec![K::Yield.into(), fadd(0, 1, Sc), K::Yield.into(), fadd(0, 1, Sc)]], vec![], vec![]));
+    // spin loop, wait loops
+    v.push(with_main("PRE-spin", o.clone(), vec![], vec![vec![st(1, 1, Rlx), st(0, 1, Rel)]], vec![K::Await { a: 0, mo: Acq, want: 1 }.into(), ld(1, Rlx)], vec![]));
+    v.push(with_main("PRE-spin2", o.clone(), vec![], vec![vec![st(0, 1, Rel)], vec![K::Await { a: 0, mo: Acq, want: 1 }.into(), st(1, 1, Rel)]], vec![K::Await { a: 1, mo: Acq, want: 1 }.into()], vec![]));
+    v.push(with_main("PRE-nloop", o.clone(), vec![], vec![vec![st(0, 1, Rlx), K::NNotify { n: 0 }.into()]], vec![K::NWaitUntil { n: 0, a: 0, mo: Rlx, want: 1 }.into()], vec![]));
+    v.push(with_main("PRE-park", o.clone(), vec![], vec![vec![st(0, 1, Rlx), K::Unpark { t: 0 }.into()]], vec![K::ParkUntil { a: 0, mo: Rlx, want: 1 }.into()], vec![]));
+    v.push(with_main("PRE-cv", o.clone(), vec![], vec![vec![lk(), st(0, 1, Rlx), K::NotifyOne { cv: 0 }.into(), ul()]], vec![lk(), K::CvWaitUntil { cv: 0, m: 0, a: 0, mo: Rlx, want: 1 }.into(), ul()], vec![]));
+    v.push(with_main("PRE-chan", o.clone(), vec![], vec![vec![K::Send { ch: 0, v: 1 }.into()], vec![K::Send { ch: 0, v: 2 }.into()]], vec![K::Recv { ch: 0 }.into(), K::TryRecv { ch: 0 }.into()], vec![]));
+    let n = if tier == "quick" { 6 } else { 40 };
+    let pick = |x: Vec<Program>, n: usize| -> Vec<Program> {
+        let step = (x.len() / n).max(1);
+        x.into_iter().step_by(step).take(n).collect()
+    };
+    v.extend(pick(lock_family(1, 0, 2, 3, 6, true, true), n));
+    v.extend(pick(spin_lock_family(tier).into_iter().filter(|p| p.threads.len() <= 3).collect(), n));
+    v.extend(pick(a_sc(1, 2, 2, 4, false), n));
+    v.extend(pick(wait_loop_family(false).into_iter().filter(|p| p.threads.len() <= 3).collect(), n));
+    v.into_iter().map(|p| with_prelude(&p)).collect()
+}
